@@ -9,7 +9,7 @@ from pyvc.theory_fs import CALC, EMPTY, FS, JD, NONEV, Data, LIn, LJob, LWs, Nam
 from pyvc.theory_j import Id, SId
 from pyvc.verify import Contract
 
-from .jobfs import JOB, PRJ, JobCtx, SSP, inv_job, mk_job, mk_project, mk_spdict, spv_of
+from .jobfs import HAS_NESTED_MUTABLE, JOB, PRJ, JobCtx, SSP, inv_job, mk_job, mk_project, mk_spdict, spv_of
 
 GETTERS = (f"{JOB}.Job.id", f"{JOB}.Job.path", f"{JOB}.Job._statepoint_filename", f"{PRJ}.Project.workspace", f"{PRJ}.Project.path",
            f"{JOB}.Job._initialize_lazy_properties", f"{JOB}.Job.project", f"{JOB}.Job.__str__", f"{JOB}.Job.fn", f"{PRJ}.Project.fn")
@@ -178,7 +178,9 @@ class SPLoad(FSContract):
                 ex.oblige(self.oname("raises:JobsCorruptedError_names_the_job"),
                           z3.BoolVal(isinstance(ids, list) and len(ids) == 1 and isinstance(ids[0], SId)) if not (isinstance(ids, list) and len(ids) == 1 and isinstance(ids[0], SId)) else ids[0].e == jid)
             else:
-                ex.oblige(self.oname("raises:otherwise_only_an_injected_OSError"), z3.BoolVal(isinstance(exc, SymOSError)))
+                # bytes that are not UTF-8 surface as UnicodeDecodeError (only JSONDecodeError is translated): still a rejection of an invalid file
+                ex.oblige(self.oname("raises:otherwise_only_an_injected_OSError_or_the_decode_error_of_an_invalid_file"),
+                          z3.Or(z3.BoolVal(isinstance(exc, SymOSError)), z3.And(z3.BoolVal(isinstance(exc, UnicodeDecodeError)), z3.Not(ok))), note=repr(exc))
 
 
 def stub_sp_load(interp, b):
@@ -203,6 +205,8 @@ def stub_sp_load(interp, b):
         e = z3.Int(ex.fresh_name("errno"))
         ex.assume(z3.And(e != errno.ENOENT, e > 0))
         raise RaiseSignal(SymOSError(e))
+    if ex.decide(z3.And(fs.dirs[JD.mk(loc.p, loc.i)], Node.is_File(n), z3.Not(jsonok(Node.data(n)))), "load:file-is-not-json") and ex.decide(None, "load:bytes-not-utf8"):
+        raise RaiseSignal(UnicodeDecodeError("utf-8", b"\xff", 0, 1, "invalid start byte"))
     raise RaiseSignal(JobsCorruptedError([jid]))
 
 
@@ -219,7 +223,9 @@ def stub_sp_save(interp, b):
         raise Unsupported("symbolic force")
     if not force and ex.decide(Node.is_File(sp0), "save:file-exists"):
         return None
-    outcome = ex.choose(4 if ctx.faults else 2, "save-outcome")
+    # without injected I/O errors a forced save writes; EEXIST / EACCES (swallowed by save) are errors of open() and only arise as faults or,
+    # for an unforced save, when another process created the file in between
+    outcome = ex.choose(4 if ctx.faults else (1 if force else 2), "save-outcome")
     if outcome == 0:      # wrote exactly the data
         if not ex.decide(fs.dirs[k], "save:dir-exists"):
             raise ctx.enoent()
@@ -250,7 +256,7 @@ class JobInit(FSContract):
     callees = {"signac._utility._mkdir_p": stub_mkdir_p, f"{JOB}._StatePointDict.load": stub_sp_load, f"{JOB}._StatePointDict.save": stub_sp_save}
 
     def cases(self):
-        return [{"force": f, "validate": v} for f in (False, True) for v in (True, False)]
+        return [{"force": f, "validate": v} for f in (False, True) for v in (True, False)] + [{"force": True, "validate": True, "faults": False}]
 
     def setup(self, interp, case):
         ex, ctx = interp.ex, interp.ctx
@@ -258,6 +264,7 @@ class JobInit(FSContract):
         proj = mk_project(ex)
         job = mk_job(interp, proj, "me")
         p, me = proj.p, job.me
+        ctx.ghost["knows_sp"] = job.fields["_cached_statepoint"] is not None or job.fields["_statepoint_requires_init"] is False
         if job.fields["_cached_statepoint"] is None:
             # a handle opened by id without cache entry: creating the job is only possible once the state point is known
             pass
@@ -306,8 +313,13 @@ class JobInit(FSContract):
                 ex.oblige(self.oname("inv:" + lab), c)
         else:
             exc = outcome[1]
+            if case.get("faults") is False and case["force"] and ctx.ghost["knows_sp"]:
+                # totality (what repair() relies on): a handle that knows its state point re-creates the job whatever the file on disk holds
+                ex.oblige(self.oname("total:with_force_a_known_state_point_and_no_IO_error_the_job_is_initialised_whatever_the_file_on_disk_holds"), False, note=repr(exc))
             if isinstance(exc, JobsCorruptedError):
                 ex.oblige(self.oname("raises:JobsCorruptedError_means_no_valid_state_point_on_disk"), z3.Not(fs.valid(p, me)))
+            elif isinstance(exc, UnicodeDecodeError):
+                ex.oblige(self.oname("raises:a_decode_error_means_no_valid_state_point_on_disk"), z3.Not(fs.valid(p, me)))
             elif isinstance(exc, OSError):
                 # pre-state or check()-detectable: every state is valid-or-detectable by definition of check(); what is demanded beyond the
                 # frame obligations above is that an I/O error never *creates* a valid-looking job out of nothing but this handle's state point
@@ -372,6 +384,9 @@ def stub_job_init(interp, b):
         ctx.effect(interp, "Job.init (failed)", f1)
         if outcome == 1:
             ex.assume(z3.Not(f1.valid(p, me)))
+            if ex.decide(None, "init:invalid-file-is-not-utf8"):
+                # (JobInit.post: a decode error means no valid state point on disk) -- the reader's UnicodeDecodeError is not translated
+                raise RaiseSignal(UnicodeDecodeError("utf-8", b"\xff", 0, 1, "invalid start byte"))
             raise RaiseSignal(JobsCorruptedError([job.fields["_id"]]))
         e = z3.Int(ex.fresh_name("errno"))
         ex.assume(z3.And(e != errno.ENOENT, e > 0))
@@ -548,7 +563,7 @@ class SPRekey(FSContract):
             exc = outcome[1]
             if isinstance(exc, DestinationExistsError):
                 ex.oblige(self.oname("raises:DestinationExistsError_leaves_both_jobs_byte_identical"), fs.eq(fs0))
-            elif isinstance(exc, JobsCorruptedError):
+            elif isinstance(exc, (JobsCorruptedError, UnicodeDecodeError)):
                 ex.oblige(self.oname("raises:JobsCorruptedError_only_from_the_final_init_and_detectable"),
                           z3.And(z3.Not(fs.valid(p, new)), initialised, old != new))
             elif isinstance(exc, SymOSError):
@@ -698,7 +713,9 @@ class OpenJobBySP(FSContract):
         cs = j.fields.get("_cached_statepoint")
         if case["by"] == "statepoint":
             ex.oblige(self.oname("ensures:id_is_hash_of_state_point"), j.fields["_id"].e == CALC(sp))
-            ex.oblige(self.oname("ensures:handle_holds_an_unaliased_equal_copy"), z3.And(z3.BoolVal(isinstance(cs, SSP) and cs is not pre["arg"]), cs.e == sp) if isinstance(cs, SSP) else z3.BoolVal(False))
+            ex.oblige(self.oname("ensures:handle_holds_an_unaliased_equal_copy"),
+                      z3.And(z3.BoolVal(isinstance(cs, SSP) and cs is not pre["arg"]), z3.Or(z3.BoolVal(getattr(cs, "shares_nested_with", None) is None), z3.Not(HAS_NESTED_MUTABLE(sp))), cs.e == sp) if isinstance(cs, SSP) else z3.BoolVal(False),
+                      note="the handle's state point shares nested containers with the caller's mapping" if getattr(cs, "shares_nested_with", None) is not None else "")
         else:
             ex.oblige(self.oname("ensures:cached_job_opened_with_its_cached_state_point"),
                       z3.And(j.fields["_id"].e == i, cs.e == proj.fields["_sp_cache"].val[i]) if isinstance(cs, SSP) else z3.BoolVal(False))
@@ -819,8 +836,8 @@ class JobMove(FSContract):
             if isinstance(exc, (DestinationExistsError, RuntimeError)):
                 ex.oblige(self.oname("raises:DestinationExists_or_uninitialised_leaves_all_job_directories_untouched"),
                           z3.And(fs.dirs == fs0.dirs, fs.ent == fs0.ent))
-            elif isinstance(exc, (SymOSError, JobsCorruptedError)):
-                pass   # frame + crash invariants
+            elif isinstance(exc, (SymOSError, JobsCorruptedError, UnicodeDecodeError)):
+                pass   # frame + crash invariants (a decode error is the rejection of a state point file that is not even UTF-8)
             else:
                 ex.oblige(self.oname("raises:no_other_exception"), False, note=repr(exc))
         ex.oblige(self.oname("ensures:occupied_destination_never_clobbered"),
@@ -871,6 +888,8 @@ class ProjectClone(FSContract):
             exc = outcome[1]
             if isinstance(exc, DestinationExistsError):
                 ex.oblige(self.oname("raises:DestinationExistsError_leaves_everything_untouched"), z3.And(fs.dirs == fs0.dirs, fs.ent == fs0.ent))
+            elif isinstance(exc, UnicodeDecodeError):
+                pass   # rejection of a state point file that is not UTF-8 (covered by the frame / never-clobbered clauses)
             elif isinstance(exc, ValueError):
                 ex.oblige(self.oname("raises:ValueError_only_for_an_uninitialised_source"), z3.And(z3.Not(fs0.dirs[ks]), fs.dirs == fs0.dirs, fs.ent == fs0.ent))
             elif isinstance(exc, (SymOSError, JobsCorruptedError)):
@@ -974,7 +993,7 @@ class SPGetter(FSContract):
                     ex.oblige(self.oname("inv:" + lab), c)
         else:
             exc = outcome[1]
-            ex.oblige(self.oname("raises:only_when_a_lazy_load_fails"), z3.BoolVal(isinstance(exc, (JobsCorruptedError, SymOSError))))
+            ex.oblige(self.oname("raises:only_when_a_lazy_load_fails"), z3.BoolVal(isinstance(exc, (JobsCorruptedError, SymOSError, UnicodeDecodeError))))
             ex.oblige(self.oname("raises:handle_still_lazy"), z3.BoolVal(job.fields["_statepoint_requires_init"] is True))
 
 
@@ -1033,7 +1052,14 @@ UVal = z3.DeclareSort("UVal")
 upd_n = z3.Function("upd_n", UpdV, z3.IntSort())
 upd_key = z3.Function("upd_key", UpdV, z3.IntSort(), UKey)
 upd_val = z3.Function("upd_val", UpdV, z3.IntSort(), UVal)
-sp_get = z3.Function("sp_get", SPv, UKey, UVal, UVal)        # dict.get(key, default) on a state point value
+sp_has = z3.Function("sp_has", SPv, UKey, z3.BoolSort())     # key in state point value
+sp_val = z3.Function("sp_val", SPv, UKey, UVal)             # its value there
+NONE_UVAL = z3.Const("None_as_value", UVal)
+
+
+def sp_get(sp, k, d):
+    """dict.get(key, default) on a state point value"""
+    return z3.If(sp_has(sp, k), sp_val(sp, k), d)
 uval_eq = z3.Function("uval_eq", UVal, UVal, z3.BoolSort())   # Python == on values
 sp_updated = z3.Function("sp_updated", SPv, UpdV, SPv)       # dict(sp); .update(upd)
 
@@ -1062,6 +1088,11 @@ class SUVal(Sym):
             return SBool(uval_eq(self.e, other.e))
         raise Unsupported("value ==")
 
+    def sym_is(self, ex, other):
+        if other is None:
+            return SBool(self.e == NONE_UVAL)
+        raise Unsupported("`is` on a value")
+
 
 class SSPCopy(SSP):
     """a plain dict copy of a state point (statepoint()): supports .get / .update as abstract functions"""
@@ -1071,6 +1102,8 @@ class SSPCopy(SSP):
             def get(k, default=None):
                 if isinstance(k, SUKey) and isinstance(default, SUVal):
                     return SUVal(sp_get(self.e, k.e, default.e))
+                if isinstance(k, SUKey) and default is None:
+                    return SUVal(sp_get(self.e, k.e, NONE_UVAL))
                 raise Unsupported("statepoint.get arguments")
             return NativeStub(get, "dict.get")
         if name == "update":
